@@ -18,6 +18,7 @@ CONSTANTS
   MaxEv = 0
   TickEnds = FALSE
   UseHint = TRUE
+  Remember = TRUE
 INVARIANT OwnEntry
 INVARIANT SteadyForgets
 PROPERTY Monotone
